@@ -120,6 +120,14 @@ class _GraphIO(collections.UserList["_core.Value"]):
 
         raise TypeError(f"Invalid types for __setitem__: {type(i)} and {type(item)}")
 
+    def __delitem__(self, i) -> None:
+        """Remove an input/output (or a slice of them) from the graph."""
+        removed = self.data[i] if isinstance(i, slice) else [self.data[i]]
+        super().__delitem__(i)
+        for value in removed:
+            self._maybe_unset_graph(value)
+        self._check_invariance()
+
     def __getitem__(self, i):
         """Get an input/output from the graph."""
         return self.data[i]
@@ -133,6 +141,7 @@ class _GraphIO(collections.UserList["_core.Value"]):
     __iadd__ = _unimplemented
     __mul__ = _unimplemented
     __rmul__ = _unimplemented
+    __imul__ = _unimplemented
 
 
 class GraphInputs(_GraphIO):
